@@ -101,6 +101,11 @@ func compareT(p *gen.Program, timeout time.Duration) (agree bool, decided bool, 
 	}
 	src = gen.RenderProgram(p)
 	got = rz.Run(src, rz.Opts{GlobalNames: eng.GlobalNames(want), Timeout: timeout})
+	if got.Err == "timeout" && timeout >= realTimeout {
+		// a watchdog hit is only believed when it repeats with four times the budget (a loaded machine is
+		// not a hang)
+		got = rz.Run(src, rz.Opts{GlobalNames: eng.GlobalNames(want), Timeout: 4 * timeout})
+	}
 	return rz.Diff(want, got) == "", true, want, got, src, in.Steps, nil
 }
 
